@@ -11,9 +11,11 @@
     network.h by C09's translator): the y flip `cxy ↦ -cxy` keeps both semi-axes and maps the
     bearing `α ↦ π − α` (mod π).
 
-  `Lemmas/StatsReal.lean` (C09) cannot be imported next to `Lemmas/LinSpec.lean` (both declare
-  `Gama.instScalarReal`), so the ellipse fact is proved here directly on the generated definition
-  with the `Scalar ℝ` of LinSpec and a `Trig ℝ` instance of the same meaning as C09's.
+  The ellipse fact is proved here directly on the generated definition with the shared `Scalar ℝ`
+  (`Gama.instScalarReal`, `Lemmas/RealScalar.lean`) and a `Trig ℝ` instance equal to C09's
+  (`Props/C07Compose.lean`: `trigReal_C07_eq_C09`, by `rfl`; written when `Lemmas/StatsReal.lean`
+  could not yet be imported next to `Lemmas/LinSpec.lean`).  `Props/C07Compose.lean` composes it with
+  C09's eigen-decomposition theorem.
 -/
 import Gama.Lemmas.LinReal
 import Gama.Lemmas.C07LS
